@@ -1,6 +1,7 @@
 """Plugin rule module of tools/extract.py (loaded by `_load_rule_plugins`): rules needed by unit `sj` (serde_json bridge, C19).
 
 R140  `RECV.into()` -> `From::from(RECV)`
+R141  `TYPE::from(ARGS)` -> `<TYPE as From<_>>::from(ARGS)`
 """
 
 
@@ -95,5 +96,37 @@ def register(RULES, RULE_DOC, ex):
         stats["R140"] = stats.get("R140", 0) + len(keep)
         return _replace_spans(src, keep)
 
+    def rule_R141(src, stats):
+        """`TYPE::from(ARGS)` -> `<TYPE as From<_>>::from(ARGS)`, TYPE = a plain path `a::b::C` without generic arguments (anything else,
+        e.g. `Vec::<u8>::from(..)` or `<T>::from(..)`, is left alone; the trait path `From::from(..)` itself is not a TYPE).  Meaning: for a
+        type without an inherent associated function called `from` the path call `TYPE::from(x)` resolves to the `from` of a trait in
+        scope, and `From` is the only prelude trait with that method: it IS `<TYPE as From<_>>::from(x)`, the argument type selecting the
+        impl in both spellings.  (If TYPE had an inherent `from`, the rewritten text would call another function; for the types this is
+        applied to -- serde_json::Number, which only has `from_f64`, `from_i128`, .. -- there is none.  A wrong guess cannot prove
+        anything new: the call then needs a `From` impl that does not exist and the unit does not compile, i.e. is undecided.)  Why: unit
+        sj declares a local shim of the trait `From` carrying the contracts; std's reflexive `impl<T> From<T> for T` stays visible to
+        method lookup, so the unqualified `TYPE::from` is ambiguous (E0034) between the shim and std's trait; naming the trait decides."""
+        code = lex(src)
+        spans = []
+        for i in range(3, len(code) - 1):
+            if not (code[i].kind == "ident" and code[i].text == "from" and code[i + 1].text == "("
+                    and code[i - 1].text == ":" and code[i - 2].text == ":" and code[i - 3].kind == "ident"):
+                continue
+            j = i - 3
+            while j >= 3 and code[j - 1].text == ":" and code[j - 2].text == ":" and code[j - 3].kind == "ident":
+                j -= 3
+            if j >= 1 and code[j - 1].kind == "punct" and code[j - 1].text in (":", ">", "<", "."):
+                continue        # generic arguments / qualified path / method chain in front: not a plain type path
+            path = src[code[j].start:code[i - 3].end]
+            if path in ("From", "std::convert::From", "core::convert::From"):
+                continue
+            spans.append((code[j].start, code[i].end, "<" + path + " as From<_>>::from"))
+        if not spans:
+            return src
+        stats["R141"] = stats.get("R141", 0) + len(spans)
+        return _replace_spans(src, spans)
+
     RULES["R140"] = rule_R140
+    RULES["R141"] = rule_R141
+    RULE_DOC["R141"] = rule_R141.__doc__.strip()
     RULE_DOC["R140"] = rule_R140.__doc__.strip()
